@@ -278,6 +278,10 @@ Fixpoint reports (c : cmd) : bool :=
 
 Definition reports_in (mode : list (string * bool)) (c : cmd) : bool := reports (in_mode mode c).
 
+(* an entry of the generated table: (name:mode, the mode's known tests, skeleton) *)
+Definition entry := (string * list (string * bool) * cmd)%type.
+Definition entry_ok (e : entry) : bool := let '(_, m, c) := e in safe_in m c && reports_in m c.
+
 (* ---------------------------------------------------------------- used by the correspondence run *)
 Definition no_sites : label -> option string := fun _ => None.
 Definition one_site (l : label) (e : string) : label -> option string :=
@@ -395,14 +399,38 @@ Definition agrees (o : obs) (p : bool * list string * list string) : bool :=
   let '(r, n, ch) := o in let '(r', hs, ms) := p in
   Bool.eqb r r' && Nat.eqb n (length hs) && Bool.eqb ch (negb (is_nil ms)).
 
-(* a case: skeleton (already in its mode), candidate site labels of the faulting statement, exception, observation *)
-Definition fcase := (cmd * list label * string * obs)%type.
-Definition case_ok (k : fcase) : bool :=
-  let '(c, sites, e, o) := k in
+(* a case: the chain of entry points on the traceback, outermost first - each a skeleton (already in its mode)
+   with the candidate site labels of the statement the exception passed through -, the exception, the observation.
+   An inner entry point is a single fault point of the outer skeleton (it is verified on its own), so what is
+   left behind is the sum over the chain; whether the call raised is decided by the outermost. *)
+Definition part := (cmd * list label)%type.
+Definition fcase := (list part * string * obs)%type.
+
+Definition abs_pred (p : bool * list string * list string) : obs :=
+  let '(r, hs, ms) := p in (r, length hs, negb (is_nil ms)).
+
+Definition part_preds (e : string) (p : part) : list obs :=
+  let '(c, sites) := p in
   match sites with
-  | [] => existsb (agrees o) (predictions_nofault c)
-  | _ => existsb (fun l => existsb (agrees o) (predictions c l e)) sites
+  | [] => map abs_pred (predictions_nofault c)
+  | _ => flat_map (fun l => map abs_pred (predictions c l e)) sites
   end.
+
+Fixpoint combos (e : string) (ps : list part) : list obs :=
+  match ps with
+  | [] => []
+  | [p] => part_preds e p
+  | p :: rest =>
+      flat_map (fun x : obs => let '(r, n, ch) := x in
+                  map (fun y : obs => let '(_, n', ch') := y in (r, n + n', ch || ch')) (combos e rest))
+               (part_preds e p)
+  end.
+
+Definition obs_eqb (a b : obs) : bool :=
+  let '(r, n, ch) := a in let '(r', n', ch') := b in Bool.eqb r r' && Nat.eqb n n' && Bool.eqb ch ch'.
+
+Definition case_ok (k : fcase) : bool :=
+  let '(ps, e, o) := k in existsb (obs_eqb o) (combos e ps).
 
 Fixpoint mismatches_from (i : nat) (l : list fcase) : list nat :=
   match l with
